@@ -219,7 +219,14 @@ def corruptions(rng, data, keys, n):
             cuts = [0, 1, 2] + [i for i, c in enumerate(val) if c == 0] + [i + 1 for i, c in enumerate(val) if c == 0]
             nd = rng.choice(cuts + [rng.randrange(0, dl + 1)])
             b[p + 4:p + 8] = min(nd, dl).to_bytes(4, "little")
-        elif k < 0.22:
+        elif (it == 1 or k < 0.2) and rec_at:
+            # a record header (key or data length) replaced by a number far beyond the file
+            what = "record-length"
+            p, kl, dl = rec_at[-1] if rng.random() < 0.5 else rng.choice(rec_at)
+            v = rng.choice([0x80000000, 0x80000000, 0xffffffff, 0x7fffffff, 0x90000000, L, L - p, 0xfffffff0])
+            f = 4 if rng.random() < 0.75 else 0
+            b[p + f:p + f + 4] = (v & 0xffffffff).to_bytes(4, "little")
+        elif k < 0.30:
             what = "truncate"
             cut = rng.choice([0, 8, 2047, 2048, L - 1, L - 8, rng.randrange(0, L + 1), 8 * rng.randrange(0, L // 8 + 1),
                               end_records, max(0, end_records - rng.randint(1, 12))])
@@ -241,8 +248,8 @@ def corruptions(rng, data, keys, n):
                 b[rng.randrange(2048, L) if L > 2048 and rng.random() < 0.7 else rng.randrange(L)] = rng.randrange(256)
         else:
             what = "pointer"
-            v = rng.choice([0xffffffff, 0, 0x7fffffff, 0x80000000, L - 1, L, L + 1, 2048, L - 8, 1, 0xfffffff8,
-                            rng.randrange(0, L + 64)]) & 0xffffffff
+            v = rng.choice([0xffffffff, 0xffffffff, 0, 0x7fffffff, 0x80000000, L - 1, L, L + 1, 2048, L - 8, 1, 0xfffffff8,
+                            0xfffffff0, rng.randrange(0, L + 64)]) & 0xffffffff
             region = rng.random()
             if region < 0.45:
                 p = rng.choice(slots) + rng.choice([0, 4])
@@ -351,7 +358,7 @@ class Box:
         out, self.stderr = self.stderr, []
         return out
 
-    def lspawn(self, locals_, domain=b"local.test"):
+    def lspawn(self, locals_, domain=b"local.test", timeout=120):
         """-> (reports {idx: bytes}, records {idx: rec}, idevents {pid: [events]}, problem|None)"""
         for f in os.listdir(self.rec):
             os.unlink(os.path.join(self.rec, f))
@@ -365,7 +372,7 @@ class Box:
             f.write(cmds)
         for attempt in (0, 1):
             with open(cf, "rb") as fin:
-                rc, out, err = core.run_with_watchdog([self.home + "/bin/qmail-lspawn", DEFAULT.decode()], 120,
+                rc, out, err = core.run_with_watchdog([self.home + "/bin/qmail-lspawn", DEFAULT.decode()], timeout,
                                                       env=self.env(), stdin=fin)
             if rc is not None:
                 break
@@ -479,13 +486,18 @@ def judge(res, box, ctx, locals_, expect, reports, records, ev, domain, tag, cho
             if recs:
                 cls = "uid0-entry-delivered" if exp[1] == "uid0" else "delivery-despite-lookup-error"
                 key = "C11/%s/%s" % (tag, cls)
+                if exp[1].startswith("cdb-damaged/"):
+                    key += "/" + exp[1].split("/", 1)[1]
                 if chosen.get("entries") is not None and upper_wild_defect(chosen["entries"], chosen.get("fallback"), local, rep, recs):
                     key = "C11/assign/wildcard-uppercase-last-char-ignored"
                 res.violate(key, "expected a deferral (%s) but qmail-local ran" % exp[1], wit)
             elif kind != b"Z":
                 res.violate("C11/%s/not-deferred" % tag, "expected a Z report (%s)" % exp[1], wit)
             else:
-                res.counters.inc("deferred_ok_" + exp[1])
+                res.counters.inc("deferred_ok_" + exp[1].split("/")[0])
+                if "/" in exp[1]:
+                    dc = res.counters.setdefault("damage_classes_deferred", {})
+                    dc[exp[1].split("/", 1)[1]] = dc.get(exp[1].split("/", 1)[1], 0) + 1
                 res.nontrivial(tag, "defer", exp[1], ctx.get("case"), local)
             continue
         if exp[0] == "undefined":
@@ -641,7 +653,7 @@ def run_case(res, box, i, tier):
             recs = um.CdbReader(compiled).records()
             if len(recs) != len(entries) + 1:
                 res.violate("C11/newu/record-count", "%d records for %d assignments" % (len(recs), len(entries)), ctx)
-        except (um.CdbBad, um.CdbUndefined) as e:
+        except um.CdbBad as e:
             res.violate("C11/newu/compiled-file-damaged", "independent reader: %s" % e, ctx)
             return
     if mode == "malformed":
@@ -711,7 +723,7 @@ def run_case(res, box, i, tier):
         if compiled is not None and mode in ("table", "emptytable", "malformed"):
             try:
                 ct = um.cdb_lookup(compiled, l)
-            except (um.CdbBad, um.CdbUndefined) as e:
+            except um.CdbBad as e:
                 ct = e
             st = um.assign_lookup(entries, l)
             if (ct is None) != (st is None) or (ct is not None and st is not None and
@@ -754,6 +766,7 @@ def run_case(res, box, i, tier):
                 os.rename(cdbp + ".new", cdbp)
                 cexp = {}
                 cls = set()
+                slow = False
                 for idx, l in enumerate(probe):
                     try:
                         t = um.cdb_lookup(damaged, l)
@@ -763,16 +776,22 @@ def run_case(res, box, i, tier):
                         else:
                             cls.add("same" if t[:6] == (um.assign_lookup(entries, l) or ())[:6] else "other-valid-table")
                         cexp[idx] = expect_of(t)
-                    except um.CdbBad:
-                        cexp[idx] = ("defer", "cdb-damaged")
+                    except um.CdbBad as e:
+                        cexp[idx] = ("defer", "cdb-damaged/" + e.cls)
                         cls.add("damage-detected")
-                    except um.CdbUndefined:
-                        cexp[idx] = ("undefined", None)
-                        cls.add("undefined")
+                        slow = slow or e.cls == "length-over-2G"
+                if slow:
+                    # (a data length >= 2^31 costs the unrepaired program gigabytes of scanning per
+                    # address: keep such runs small)
+                    keep = sorted(range(len(probe)), key=lambda k: len(probe[k]))[:2]
+                    probe_run = [probe[k] for k in keep]
+                    cexp = {n: cexp[k] for n, k in enumerate(keep)}
+                else:
+                    probe_run = probe
                 cc = res.counters.setdefault("corruption_outcomes", {})
                 for c in cls:
                     cc[what + "/" + c] = cc.get(what + "/" + c, 0) + 1
-                reports, records, ev, problem = box.lspawn(probe, domain)
+                reports, records, ev, problem = box.lspawn(probe_run, domain, 600 if slow else 120)
                 if problem:
                     res.inconclusive.append("case %d corrupt: %s" % (i, problem))
                     continue
@@ -782,7 +801,7 @@ def run_case(res, box, i, tier):
                 if reps:
                     res.violate("C20/sanitizer/qmail-lspawn/" + hrun.sanitizer_site(reps[0]),
                                 "sanitizer report under qmail-lspawn reading a damaged users/cdb", dict(cctx, stderr=reps[0][-2000:]))
-                judge(res, box, cctx, probe, cexp, reports, records, ev, domain, "corrupt", None, bool(reps))
+                judge(res, box, cctx, probe_run, cexp, reports, records, ev, domain, "corrupt", None, bool(reps))
     shutil.rmtree(hd, ignore_errors=True)
 
 
@@ -839,7 +858,7 @@ def main(tier):
         "shim; the state at exec is what ql-rec records in the same process id)",
         "id fields that are not decimal numbers below 2^32 are outside qmail-users(5): only 'never uid 0' is judged there",
         "damaged users/cdb: outcome must equal what an independent reader finds in the same bytes; a pointer/length leaving the "
-        "file must give a Z report; 32-bit wrap-around of a table offset or a data length >= 2^31 is left unjudged except for 'never root'",
+        "file (however large the number is: no 32-bit arithmetic is imitated) must give a Z report",
         "group-membership of conf-users accounts and conf-break '-' as in the scratch build"])
     if harness_problem and rc == 0:
         print("INCONCLUSIVE property=%s: harness h_cdb.c does not build against this tree (whole-program part was silent)" % PROP)
